@@ -242,8 +242,67 @@ def cli_copy_eval(doc):
     return None, n
 
 
+# ---- canonical order of keys of any kind ---------------------------------------------------------------------------------
+# keys of every kind the Python API accepts (encoded for JSON: tuples as {'t': [...]}, bytes as {'y': 'text'})
+KEY_KINDS = [9, 10, '1a', '9', 1.5, True, None, {'t': [1]}, {'t': ['a']}, {'t': [1, 2]}, 'x', {'y': 'x'}, 'ListNode', 'None',
+             {'t': [None]}, {'t': []}, '', 0, {'t': [[1], 2]}]
+
+
+def real_key(k):
+    if isinstance(k, dict):
+        if 't' in k:
+            return tuple(real_key({'t': x}) if isinstance(x, list) else x for x in k['t'])
+        return k['y'].encode()
+    return k
+
+
+def key_order_cases(tier):
+    size = 3 if tier == 'quick' else 4
+    for sub in itertools.combinations(range(len(KEY_KINDS)), size):
+        yield list(sub)
+
+
+def key_order_eval(sub):
+    """One mapping with the given keys, built from every insertion order: the stored item order, equality and cost 0."""
+    from graphtage.builder import BasicBuilder
+    keys = [real_key(KEY_KINDS[i]) for i in sub]
+    if len({k: 0 for k in keys}) != len(keys):
+        return None, 0          # 1 / True (0 / False) are the same dict key in Python
+    first = None
+    n = 0
+    for perm in itertools.permutations(keys):
+        try:
+            with time_limit(CASE_TIMEOUT):
+                t = BasicBuilder().build_tree({k: 'v' for k in perm})
+                order = [repr(kvp.key) for kvp in t]
+                n += 1
+                if first is None:
+                    first = (order, t, perm)
+                    continue
+                if order != first[0]:
+                    return {'key': 'stored_item_order_depends_on_key_order @ DictNode.from_dict : keys of mixed kinds',
+                            'detail': f'keys {first[2]!r} are stored as {first[0]}, keys {perm!r} as {order}'}, n
+                if not (t == first[1]) or int(first[1].diff(t).edited_cost()) != 0:
+                    return {'key': 'permuted_copy_not_equal @ DictNode : keys of mixed kinds', 'detail': f'{first[2]!r} vs {perm!r}'}, n
+        except CaseTimeout:
+            return {'key': 'timeout @ build : keys of mixed kinds', 'detail': repr(perm)}, n
+        except Exception as ex:  # noqa
+            return {'key': f'exception {type(ex).__name__} @ {site_of(ex)} : keys of mixed kinds', 'detail': f'{perm!r}: {ex!r}'}, n
+    return None, n
+
+
 def _shard(i, n, tier, payload):
     r = Result()
+    for idx, sub in enumerate(key_order_cases(tier)):
+        if idx % n != i:
+            continue
+        fail, k = key_order_eval(sub)
+        r.evaluations += k
+        r.extra['key_order_builds'] = r.extra.get('key_order_builds', 0) + k
+        if fail:
+            r.fail(fail['key'], {'key_kinds': sub}, fail['detail'], order=3 * 10 ** 7 + idx)
+        elif k:
+            r.outcomes.add(h(('key_order', idx)))
     for idx, case in cases(tier):
         if idx % n != i:
             continue
@@ -281,6 +340,8 @@ def run(ctx):
 
 
 def replay(case):
+    if 'key_kinds' in case:
+        return key_order_eval(case['key_kinds'])[0]
     if 'swap_doc' in case:
         return swap_eval(case['swap_doc'])[0]
     if 'cli_doc' in case:
